@@ -38,6 +38,8 @@ pub(crate) fn apply_file_system_operations(
     let mut count = 0;
 
     for operation in operations {
+        #[cfg(isographlabs_isograph_verif)]
+        crate::verif::fault_point(operation, artifacts)?;
         match operation {
             FileSystemOperation::DeleteDirectory(path) => {
                 if path.exists() {
